@@ -89,9 +89,9 @@ TEXTS = {
     "C08": {
         "text": "Lean theorems on the reconstructor for every token list with canonical counters: gap shape (none/one space, or 1-2 breaks "
                 "plus whole indentation units), whole-unit indentation, end-of-file newline, spacing rule values <= 1, and after TokenSpacing no token is preceded by more than one space whatever the original spacing (spacing_at_most_one, via layout invariance). Exact models of the "
-                "rules feeding the counters are differentially checked; a line-scanner oracle checks the real output of every case. no_spaces_at_line_start: for every search the exact model of the wrapper stage (wp/wcn correspondence) leaves no spaces before a token that starts a line.",
-        "design_ref": "DESIGN.md section 5 (C08), 12.2",
-        "note": "The canonical-counters premise is the wrapper contract (tallied per case, not proved for the search); known findings F5, "
+                "rules feeding the counters are differentially checked; a line-scanner oracle checks the real output of every case. no_spaces_at_line_start: for every search the exact model of the wrapper stage (wp/wcn correspondence) leaves no spaces before a token that starts a line. C08_format_full_checked / canonical_counters_after_stage: for the closed model of the whole formatter (search inside) the output is the reconstruction of a state in which every token not kept verbatim has canonical counters (at most two line breaks, no spaces at a line start, no indentation without a line break, at most one space otherwise), whatever the search returned, whenever the decidable premise canonPremisesB holds (at most one space per token before the stage; every token written by a first-phase solution or by the end-of-file rule) - tallied on every case of the full stream (info_c08); it fails exactly on lines without a wrapping solution (F34).",
+        "design_ref": "DESIGN.md section 5 (C08), 12.2, 12.8",
+        "note": "Known findings F5, "
                 "F6, F13, F14, F15 are recorded classes. Trusted: Lean kernel, translator, harness, model.",
         "technique": "Lean 4 proof over executable model + differential correspondence + direct oracle",
     },
